@@ -6,7 +6,7 @@ import os
 import sys
 import traceback
 
-from . import report
+from . import report, support
 
 
 def main():
@@ -22,12 +22,15 @@ def main():
     if args.replay:
         with open(args.replay) as f:
             data = json.load(f)
+        if data.get('via'):   # a hypothesis of this property decided by another property's decider (vf/support.py)
+            mod = importlib.import_module('checks.' + data['via'].lower())
         ok = mod.replay(data['replay'])
         print('replay: violation %s' % ('REPRODUCED' if ok else 'did not reproduce'))
         sys.exit(1 if ok else 0)
     out = report.Outcome(args.prop, args.tier, seed, getattr(mod, 'LEVEL', 'other'))
     try:
         mod.run(out)
+        support.run_supporting(out)
     except Exception as e:  # harness error: never a verdict
         out.inconclusive.append('harness error %s: %s | %s' % (type(e).__name__, e,
                                                                 traceback.format_exc()[-1200:]))
